@@ -44,6 +44,11 @@ type simNet struct {
 	// silent (so the case ends) and the case is reported as not coming to rest
 	events  int
 	overrun bool
+	// cold routes: the first advertisement fetch of every (requester incarnation, neighbour) pair is answered with a
+	// NACK — the route /localhop/<neighbour>/32=DV is registered asynchronously while the fetch fires 10 ms after
+	// the first Sync Interest; the requester must retry after its back-off
+	cold   bool
+	nacked map[*simEngine]map[int]bool
 }
 
 const protoEventBudget = 120000
@@ -263,7 +268,27 @@ func (e *simEngine) Express(interest *ndn.EncodedInterest, cb ndn.ExpressCallbac
 				cb(a)
 			}
 		}
-		if to >= 0 && n.linked(e.idx, to) && !n.lost() {
+		n.mu.Lock()
+		nackIt := false
+		if n.cold && to >= 0 {
+			if n.nacked[e] == nil {
+				n.nacked[e] = map[int]bool{}
+			}
+			if !n.nacked[e][to] {
+				n.nacked[e][to] = true
+				nackIt = true
+				n.stats["fetch-nacked"]++
+			}
+		}
+		n.mu.Unlock()
+		if nackIt {
+			go func() {
+				time.Sleep(n.delay())
+				if e.isRunning() {
+					once(ndn.ExpressCallbackArgs{Result: ndn.InterestResultNack, NackReason: 150})
+				}
+			}()
+		} else if to >= 0 && n.linked(e.idx, to) && !n.lost() {
 			go n.deliver(e, to, interest, once)
 		} else {
 			n.count("fetch-lost")
@@ -372,8 +397,13 @@ func runProtoCase(t *testing.T, out *bufio.Writer, r *rand.Rand, k int, n int, e
 		p := &protoWorld{}
 		p.t, p.w, p.r, p.n = t, out, r, n
 		p.byHash = map[uint64]int{}
+		nested := k%3 == 1 // hierarchical router names: one name a proper prefix of another
 		for len(p.names) < n {
-			nm, _ := enc.NameFromStr(fmt.Sprintf("/net/r%d", r.Intn(1000000)))
+			str := fmt.Sprintf("/net/r%d", r.Intn(1000000))
+			if nested && len(p.names) > 0 && r.Intn(4) != 0 {
+				str = p.names[r.Intn(len(p.names))].String() + fmt.Sprintf("/c%d", r.Intn(1000))
+			}
+			nm, _ := enc.NameFromStr(str)
 			if _, dup := p.byHash[nm.Hash()]; dup || nm.Hash() < 1000 {
 				continue
 			}
@@ -387,7 +417,7 @@ func runProtoCase(t *testing.T, out *bufio.Writer, r *rand.Rand, k int, n int, e
 			p.cfgS, p.cfgD = 1000, 2000 + uint64(r.Intn(3))*1000
 		}
 		p.net = &simNet{r: rand.New(rand.NewSource(r.Int63())), eng: make([]*simEngine, n), link: map[[2]int]bool{},
-			names: p.names, stats: map[string]int{}}
+			names: p.names, stats: map[string]int{}, cold: k%5 < 2, nacked: map[*simEngine]map[int]bool{}}
 		p.rt = make([]*dvp.Router, n)
 		p.done = make([]chan struct{}, n)
 		p.nbr = make([]map[int]bool, n)
